@@ -92,6 +92,9 @@ pub enum GenerateError {
     /// Cast not supported
     UnsupportedCast,
 
+    /// A floating point remainder assignment is rewritten to name its target twice so the target can only be a plain place
+    ComplexRemainderAssignment,
+
     /// Object type has no known descriptor type mapping
     UnsupportedObjectType,
 
@@ -4201,7 +4204,56 @@ fn generate_intrinsic_op(
         DifferenceAssignment => Form::Binary(ast::BinOp::DifferenceAssignment),
         ProductAssignment => Form::Binary(ast::BinOp::ProductAssignment),
         QuotientAssignment => Form::Binary(ast::BinOp::QuotientAssignment),
-        RemainderAssignment => Form::Binary(ast::BinOp::RemainderAssignment),
+        RemainderAssignment => {
+            let lhs_ety = exprs[0].get_type(context.module).unwrap();
+            let lhs_ty = context.module.type_registry.remove_modifier(lhs_ety.0);
+            match context.module.type_registry.extract_scalar(lhs_ty) {
+                Some(ir::ScalarType::Float16)
+                | Some(ir::ScalarType::Float32)
+                | Some(ir::ScalarType::Float64) => {
+                    // Metal has no % for floating point types so there is no %= either
+                    // Emit x = fmod(x, y) - which evaluates the place x twice
+                    fn is_plain_place(expr: &ir::Expression) -> bool {
+                        match expr {
+                            ir::Expression::Variable(_)
+                            | ir::Expression::MemberVariable(_, _)
+                            | ir::Expression::Global(_) => true,
+                            ir::Expression::StructMember(object, _, _)
+                            | ir::Expression::Swizzle(object, _) => is_plain_place(object),
+                            ir::Expression::ArraySubscript(object, index) => {
+                                is_plain_place(object) && is_plain_index(index)
+                            }
+                            _ => false,
+                        }
+                    }
+
+                    fn is_plain_index(expr: &ir::Expression) -> bool {
+                        match expr {
+                            ir::Expression::Literal(_) | ir::Expression::Variable(_) => true,
+                            ir::Expression::Cast(_, inner) => is_plain_index(inner),
+                            ir::Expression::IntrinsicOp(
+                                Plus | Minus | Add | Subtract | Multiply | Divide | Modulus
+                                | LeftShift | RightShift | BitwiseAnd | BitwiseOr | BitwiseXor,
+                                operands,
+                            ) => operands.iter().all(is_plain_index),
+                            _ => false,
+                        }
+                    }
+
+                    if !is_plain_place(&exprs[0]) {
+                        return Err(GenerateError::ComplexRemainderAssignment);
+                    }
+
+                    let value = ir::Expression::IntrinsicOp(Modulus, exprs.to_vec());
+                    let assignment = ir::Expression::IntrinsicOp(
+                        Assignment,
+                        Vec::from([exprs[0].clone(), value]),
+                    );
+                    return generate_expression(&assignment, context);
+                }
+                _ => Form::Binary(ast::BinOp::RemainderAssignment),
+            }
+        }
         LeftShiftAssignment => Form::Binary(ast::BinOp::LeftShiftAssignment),
         RightShiftAssignment => Form::Binary(ast::BinOp::RightShiftAssignment),
         BitwiseAndAssignment => Form::Binary(ast::BinOp::BitwiseAndAssignment),
